@@ -264,9 +264,18 @@ def run_script(exe, lines, model_pre=(), tmpdir=None, real_env=None):
             toks = raw.split(" ")
             if toks[0].startswith("@"):
                 bind = toks[0][1:]; toks = toks[1:]
-            toks = [var.get(t[1:], t) if t.startswith("$") else t for t in toks]
+            toks = [subst(t, var) for t in toks]
             req = " ".join(toks)
             r_reply, side = real.ask(req)
+            if toks[0] in REAL_ONLY:
+                if bind is not None:
+                    for part in r_reply.split(" ")[1:]:
+                        if "=" in part:
+                            var[bind + "." + part.split("=", 1)[0]] = part.split("=", 1)[1]
+                res.append({"req": req, "real": r_reply, "model": r_reply, "side": side})
+                if real.dead:
+                    break
+                continue
             # oracle data observed from the library goes to the model first
             for s in side:
                 if s.startswith("#ctab "):
@@ -285,6 +294,17 @@ def run_script(exe, lines, model_pre=(), tmpdir=None, real_env=None):
     if res:
         res[-1]["stderr"] = getattr(real, "stderr", "")[-3000:]
     return res
+
+
+REAL_ONLY = {"sys.info", "codec.sweep32", "crc.cpu"}
+
+
+def subst(t, var):
+    if "$" not in t:
+        return t
+    for k in sorted(var, key=len, reverse=True):
+        t = t.replace("$" + k, var[k])
+    return t
 
 
 def first_disagreement(res):
